@@ -68,6 +68,12 @@ func C05(c *Ctx) int {
 			}
 		}
 	}
+	// ... and with one branch running straight from the fork to the join
+	for _, db := range []int{0, 1} {
+		gen.DirectBranch = db
+		loops = append(loops, gen.GatewayTableLoop("or", 2, -1, 1, -1, true), gen.GatewayTableLoop("or", 2, 2, 1, -1, true))
+	}
+	gen.DirectBranch = -1
 	sim := 500
 	if !c.Quick() {
 		sim = 5000
